@@ -887,7 +887,7 @@ class Interp(object):
         if r[0] is None:
             return r
         items = None
-        if isinstance(it, (tuple, list, range, bytes, str)) and len(it) <= 64:
+        if isinstance(it, (tuple, list, range, bytes, str)) and len(it) <= getattr(self, "for_limit", 64):
             items = list(it)
         elif isinstance(it, dict) and len(it) <= 64:
             items = list(it.keys())
